@@ -460,7 +460,7 @@ func unescapeRand(s string) string {
 func (k *checker) random() {
 	c := k.c
 	const stream = "rand"
-	total := c.Pick(30000, 1500000)
+	total := c.Pick(60000, 6000000)
 	c.Parallel(k.sl.n, stream, total, func(slot, idx int) {
 		r := k.sl.runner(slot)
 		rng := c.Rng(stream, idx)
@@ -521,7 +521,7 @@ var exceptPieces = []string{"{{e.detail}}", "{{e.type}}", "{{e.error}}", "{{ e.d
 func (k *checker) except() {
 	c := k.c
 	const stream = "except"
-	total := c.Pick(6000, 200000)
+	total := c.Pick(12000, 800000)
 	c.Parallel(k.sl.n, stream, total, func(slot, idx int) {
 		r := k.sl.runner(slot)
 		rng := c.Rng(stream, idx)
@@ -565,7 +565,7 @@ var sinkPieces = []string{"{{event.state.v}}", "{{event.state.w}}", "{{event.nam
 func (k *checker) sink() {
 	c := k.c
 	const stream = "sink"
-	total := c.Pick(300, 6000)
+	total := c.Pick(600, 24000)
 	for idx := 0; idx < total; idx++ {
 		if !c.Take(stream, idx) {
 			continue
